@@ -941,6 +941,13 @@ impl<F: Read + Write + Seek> Package<F> {
 
 impl<F> Drop for Package<F> {
     fn drop(&mut self) {
+        // If the package is being dropped because of a panic, don't try to
+        // write anything: the underlying compound file may be in an
+        // inconsistent (poisoned) state, and a second panic while unwinding
+        // would abort the whole process.
+        if std::thread::panicking() {
+            return;
+        }
         if let Some(finisher) = self.finisher.take() {
             let _ = finisher.finish(self);
         }
